@@ -119,6 +119,10 @@ def call_real(it, func, args, kwargs, fr, node, label):
     """call of a real Python function object of the repository: contract if registered, inline if marked, else stop"""
     reg = it.registry
     entry = reg.for_function(func)
+    if entry is None and getattr(func, '__name__', '') == '<lambda>':
+        vf = reg.vfunc_for_lambda(func)
+        if vf is not None:
+            return call_vfunc(it, vf, args, kwargs, node)
     if entry is None:
         if reg.is_pure_native(func) and not _has_sym(args) and not _has_sym(list(kwargs.values())):
             return _wrap_const(func(*[_to_py(a) for a in args], **{k: _to_py(v) for k, v in kwargs.items()}))
